@@ -3,6 +3,7 @@ package rules
 import (
 	"fmt"
 	"go/ast"
+	"go/token"
 	"strings"
 
 	"verif/checker/internal/core"
@@ -28,24 +29,32 @@ func ruleC16Names(c *ctx.Ctx, r *core.Reporter) {
 		r.Undecided("newVariable", "compiler/utils.go", "not found")
 		return
 	}
-	s := squash(nodeString(c, nv.Body))
-	// minify loop tests allVars
-	r.Check(strings.Contains(s, "iffc.pkgCtx.minify{") && strings.Contains(s, "iffc.allVars[name]==0{break}i++"), "minify:fresh-against-allVars", c.Pos(nv.Pos()), "under minification candidate short names are generated until one is unused in fc.allVars")
+	pat := func(n ast.Node, p string) bool { return hasGoPattern(n, p) }
+	// minify loop tests allVars: candidates are generated until one is unused
+	r.Check(pat(nv.Body, `if µfc.pkgCtx.minify { µµa }`) && pat(nv.Body, `for { µµa; if µfc.allVars[µname] == 0 { break }; µi++ }`), "minify:fresh-against-allVars", c.Pos(nv.Pos()), "under minification candidate short names are generated until one is unused in fc.allVars")
 	// record before return: n := allVars[name]; allVars[name] = n + 1 precedes every return
-	iRec := strings.Index(s, "n:=fc.allVars[name]fc.allVars[name]=n+1")
-	firstRet := strings.Index(s, "return")
-	r.Check(iRec >= 0 && firstRet > iRec, "record-before-return", c.Pos(nv.Pos()), "the use count of the chosen name is incremented in fc.allVars before any return")
-	r.Check(strings.Contains(s, `ifn>0{varName=fmt.Sprintf("%s$%d",name,n)}`), "collision-suffix", c.Pos(nv.Pos()), "a name that is already in use gets a numeric suffix that cannot clash with another allocated name ($ is not produced by encodeIdent for plain identifiers)")
-	r.Check(strings.Contains(s, "ifpkgLevel{forc2:=fc.parent;c2!=nil;c2=c2.parent{c2.allVars[name]=n+1}returnvarName}"), "pkg-level-propagated", c.Pos(nv.Pos()), "a package-level name is recorded in every enclosing scope, so no function-level variable can take it")
+	rec := findGoPattern(nv.Body, `µn := µfc.allVars[µname]; µfc.allVars[µname] = µn + 1`)
+	firstRet := token.NoPos
+	ast.Inspect(nv.Body, func(n ast.Node) bool {
+		if _, isLit := n.(*ast.FuncLit); isLit {
+			return false
+		}
+		if rs, ok := n.(*ast.ReturnStmt); ok && firstRet == token.NoPos {
+			firstRet = rs.Pos()
+		}
+		return true
+	})
+	r.Check(len(rec) == 1 && firstRet > rec[0].Node.Pos() && len(enclosingIfs(nv.Body, rec[0].Node.Pos())) == 0, "record-before-return", c.Pos(nv.Pos()), "the use count of the chosen name is incremented in fc.allVars, unconditionally, before any return")
+	r.Check(pat(nv.Body, `if µn > 0 { µv = fmt.Sprintf("%s$%d", µname, µn) }`), "collision-suffix", c.Pos(nv.Pos()), "a name that is already in use gets a numeric suffix that cannot clash with another allocated name ($ is not produced by encodeIdent for plain identifiers)")
+	r.Check(pat(nv.Body, `if µp { for µc := µfc.parent; µc != nil; µc = µc.parent { µc.allVars[µname] = µn + 1 }; return µv }`), "pkg-level-propagated", c.Pos(nv.Pos()), "a package-level name is recorded in every enclosing scope, so no function-level variable can take it")
 	// the two alphabets differ for package level vs local (A.. vs a..), so they cannot collide
-	r.Check(strings.Contains(s, "offset:=int('a')ifpkgLevel{offset=int('A')}"), "minify:disjoint-alphabets", c.Pos(nv.Pos()), "minified package-level names use upper-case letters, local names lower-case letters")
+	r.Check(pat(nv.Body, `µo := int('a'); if µp { µo = int('A') }`), "minify:disjoint-alphabets", c.Pos(nv.Pos()), "minified package-level names use upper-case letters, local names lower-case letters")
 	if nf := c.FuncDecl("compiler", "funcContext.nestedFunctionContext"); nf != nil {
-		t := squash(nodeString(c, nf.Body))
-		r.Check(strings.Contains(t, "fork,v:=rangefc.allVars{c.allVars[k]=v}"), "nested-inherits", c.Pos(nf.Pos()), "a nested function scope starts with a copy of its parent's name table (closures can see the parent's variables)")
+		r.Check(pat(nf.Body, `for µk, µv := range µfc.allVars { µc.allVars[µk] = µv }`), "nested-inherits", c.Pos(nf.Pos()), "a nested function scope starts with a copy of its parent's name table (closures can see the parent's variables)")
 	}
 	if rc := c.FuncDecl("compiler", "newRootCtx"); rc != nil {
-		t := squash(nodeString(c, rc.Body))
-		r.Check(strings.Contains(t, "forname:=rangereservedKeywords{funcCtx.allVars[name]=1}"), "root-seeded-with-reserved", c.Pos(rc.Pos()), "the package scope marks every reserved word as taken")
+		ms := findGoPattern(rc.Body, `for µname := range reservedKeywords { µctx.allVars[µname] = 1 }`)
+		r.Check(len(ms) == 1 && len(enclosingIfs(rc.Body, ms[0].Node.Pos())) == 0, "root-seeded-with-reserved", c.Pos(rc.Pos()), "the package scope marks every reserved word as taken — in every build mode: the short names of a minified build (do, if, in, …) are tested against this table")
 	}
 	kw, why := reservedKeywordSet(c)
 	if kw == nil {
@@ -57,7 +66,7 @@ func ruleC16Names(c *ctx.Ctx, r *core.Reporter) {
 	}
 	// the two-letter names the allocator can produce (`do`, `if`, `in`) are covered above; sanitizeName consults the table
 	if sn := c.FuncDecl("compiler", "sanitizeName"); sn != nil {
-		r.Check(strings.Contains(squash(nodeString(c, sn.Body)), `ifreservedKeywords[name]{name+="$"}`), "sanitizeName", c.Pos(sn.Pos()), "labels and method names that are reserved get a $ suffix")
+		r.Check(hasGoPattern(sn.Body, `if reservedKeywords[µname] { µname += "$" }`), "sanitizeName", c.Pos(sn.Pos()), "labels and method names that are reserved get a $ suffix")
 	}
 }
 
